@@ -536,3 +536,40 @@ Theorem job_ok_of_dmap_ok j :
   (forall t rq, In t (j_tasks j) -> t_req t = Some rq -> dmap_ok rq) ->
   (forall r n, j_tma j !! r = Some n -> in64 n) -> job_ok j.
 Proof. intros H1 H2. split; [|exact H2]. intros t rq c q Hin Hrq Hq. exact (H1 t rq Hin Hrq c q Hq). Qed.
+
+(* composition: a job whose tasks carry what buildTaskDRAInfo returned (for pods whose DeviceRequests
+   each have a non-negative int64 count) has non-negative, exactly saturating GetMinDRAResources counts *)
+Definition task_from_cache (t : dtask) : Prop :=
+  forall rq, t_req t = Some rq ->
+  exists claims refs per, claims_ok claims /\ build_task_dra claims refs = BuildOk (Some (rq, per)).
+
+Theorem min_dra_from_cache j c :
+  (forall t, In t (j_tasks j) -> task_from_cache t) ->
+  (forall r n, j_tma j !! r = Some n -> in64 n) ->
+  0 <= count_of (result_at (get_min_dra j) c) /\
+  count_of (result_at (get_min_dra j) c) = Z.min max64 (exact_sum (class_terms c (contribs j))).
+Proof.
+  intros Ht Hn.
+  assert (Hok : job_ok j).
+  { apply job_ok_of_dmap_ok; [|exact Hn]. intros t rq Hin Hrq.
+    destruct (Ht t Hin rq Hrq) as (claims & refs & per & Hc & Hb).
+    exact (proj1 (build_task_dra_counts_ok claims refs rq per Hc Hb)). }
+  split; [apply min_dra_count_nonneg|apply min_dra_count_spec]; exact Hok.
+Qed.
+
+(* non-vacuity: one claim with two requests of 2^62 devices of one class is claims_ok, builds, and the
+   count saturates at MaxInt64 *)
+Example build_task_dra_nonvacuous :
+  let claims := ({[1%positive := [mkRaw 0 1%positive (2 ^ 62) ∅; mkRaw 0 1%positive (2 ^ 62) ∅]]}
+                 : gmap positive (list rawreq)) in
+  claims_ok claims /\
+  exists r per, build_task_dra claims [1%positive] = BuildOk (Some (r, per)) /\
+                count_of (r !! 1%positive) = max64.
+Proof.
+  cbn zeta. split.
+  - intros c ws H. destruct (decide (c = 1%positive)) as [->|Hne].
+    + rewrite lookup_singleton in H. inversion H; subst.
+      repeat constructor; unfold in64, min64, max64; cbn; lia.
+    + rewrite lookup_singleton_ne in H by congruence. discriminate.
+  - eexists _, _. split; [vm_compute; reflexivity|vm_compute; reflexivity].
+Qed.
